@@ -21,7 +21,7 @@ props.prop(
     not_decided='where region edges fall between category positions (rounding in from_range, polygon/line intersections)',
     assumptions=['region classes outside glue/ are not seen'])
 props.also('C09',
-           'scale-free polygon helpers (no absolute tolerance); shared view-dependence rule of the categorical lookup (C04.f)')
+           'scale-free polygon helpers (no absolute tolerance); shared view-dependence rule of the categorical lookup (C04.f); symmetry periods of the angle shortcuts of to_polygon and the containment tests (C08.k)')
 
 FUNC = 'glue.core.subset.roi_to_subset_state'
 NAMED = ['XRangeROI', 'YRangeROI', 'RectangularROI', 'CategoricalROI', 'CircularROI', 'CircularAnnulusROI',
